@@ -244,6 +244,7 @@ func (d *Dispatcher) run(it provider.AlertIterator) {
 						ctx = d.propagator.Extract(ctx, propagation.MapCarrier(alert.Header))
 					}
 
+					verifPoint("worker.recv", alert.Data)
 					d.routeAlert(ctx, alert.Data)
 
 				case <-d.ctx.Done():
@@ -284,7 +285,9 @@ func (d *Dispatcher) doMaintenance() {
 		d.routeGroupsSlice[i].groups.Range(func(_, el any) bool {
 			ag := el.(*aggrGroup)
 			if ag.destroyed() {
+				verifPoint("maint.destroyed", ag.GroupKey())
 				ag.stop()
+				verifPoint("maint.delete", ag.GroupKey())
 				deleted := d.routeGroupsSlice[i].groups.CompareAndDelete(ag.fingerprint(), ag)
 				if deleted {
 					// TODO(ultrotter, siavash):
@@ -456,6 +459,7 @@ func (d *Dispatcher) groupAlert(ctx context.Context, alert *alert.Alert, route *
 	fp := groupLabels.Fingerprint()
 
 	el, loaded := d.routeGroupsSlice[route.Idx].groups.Load(fp)
+	verifPoint("group.loaded", alert, loaded)
 	if loaded {
 		ag := el.(*aggrGroup)
 		// Try to insert into the aggrgroup.
@@ -487,6 +491,7 @@ func (d *Dispatcher) groupAlert(ctx context.Context, alert *alert.Alert, route *
 		return
 	}
 
+	verifPoint("group.create", alert)
 	ag := newAggrGroup(d.ctx, groupLabels, route, d.timeout, d.recorder, d.logger, d.tmpl)
 	// Insert the 1st alert in the group before starting the group's run()
 	// function, to make sure that when the run() will be executed the 1st
@@ -495,6 +500,7 @@ func (d *Dispatcher) groupAlert(ctx context.Context, alert *alert.Alert, route *
 
 	retries := 0
 	for {
+		verifPoint("group.store", alert, loaded)
 		if loaded {
 			// Try to store the new group in the map. If another goroutine has already created the same group, use the existing one.
 			swapped := d.routeGroupsSlice[route.Idx].groups.CompareAndSwap(fp, el, ag)
@@ -933,7 +939,9 @@ func (ag *aggrGroup) flush(notify func(...*alert.Alert) bool) {
 
 	ag.logger.Debug("flushing", "numAlerts", len(alertsSlice), "alerts", alertsSlice)
 
+	verifPoint("flush.begin", ag.GroupKey(), ag.routeID, alertsSlice)
 	if notify(alertsSlice...) {
+		verifPoint("flush.ok", ag.GroupKey())
 		ag.recordResolvedEvents(resolvedSlice)
 
 		// Delete all resolved alerts as we just sent a notification for them,
@@ -959,6 +967,7 @@ func (ag *aggrGroup) flush(notify func(...*alert.Alert) bool) {
 			}
 		}
 	}
+	verifPoint("flush.done", ag.GroupKey())
 }
 
 func (ag *aggrGroup) recordResolvedEvents(resolved types.AlertSlice) {
